@@ -119,18 +119,26 @@ theorem sq_mul_div_sq_scale (k x c : ℝ) (hk : k ≠ 0) : k ^ 2 * x / (k * c * 
   have : k * c * (k * c) = k ^ 2 * (c * c) := by ring
   rw [this, mul_div_mul_left _ _ (pow_ne_zero 2 hk)]
 
-/-- every gamma of the tagged family is a pure number: it does not change with the unit -/
-theorem gammaVal_scale (g : GammaFn ℝ) (k c : ℝ) (hk : 0 < k) (n : Nat) (mu mu' s2 : ℝ) (r : Nat) :
-    gammaVal g (k * c) n mu' (k ^ 2 * s2) r = gammaVal g c n mu s2 r := by
-  cases g with
-  | dflt => simp only [gammaVal, sc_sqrt, sqrt_scale k _ hk, mul_div_scale k _ _ hk.ne']
-  | sq => simp only [gammaVal, sq_mul_div_sq_scale k _ _ hk.ne']
-  | _ => rfl
+/-- every gamma of the tagged family is a pure number: it does not change with the unit
+(an arbitrary callback: hypothesis `GammaScaleInv`) -/
+theorem gammaVal_scale (g : GammaFn ℝ) (hg : g.Tagged) (k c : ℝ) (hk : 0 < k) (n : Nat) (mu mu' s2 : ℝ)
+    (team team' : List (Rating ℝ)) (r : Nat) :
+    gammaVal g (k * c) n mu' (k ^ 2 * s2) team' r = gammaVal g c n mu s2 team r :=
+  gam_tagged_scale hg k c hk n mu mu' s2 team team' r
 
-/-- no gamma of the tagged family reads the team mu -/
-theorem gammaVal_mu (g : GammaFn ℝ) (c : ℝ) (n : Nat) (mu mu' s2 : ℝ) (r : Nat) :
-    gammaVal g c n mu' s2 r = gammaVal g c n mu s2 r := by
-  cases g <;> rfl
+/-- no gamma of the tagged family reads the team mu (nor the players) -/
+theorem gammaVal_mu (g : GammaFn ℝ) (hg : g.Tagged) (c : ℝ) (n : Nat) (mu mu' s2 : ℝ)
+    (team team' : List (Rating ℝ)) (r : Nat) :
+    gammaVal g c n mu' s2 team' r = gammaVal g c n mu s2 team r :=
+  gam_tagged_mu_team hg c n mu mu' s2 team team' r
+
+/-- the scale invariance of a callback, on the call `_compute` makes for a team aggregate -/
+theorem gam_scaleInv_agg {g : GammaFn ℝ} (hg : GammaScaleInv g) (k : ℝ) (hk : 0 < k) (c : ℝ) (n : Nat)
+    (t : TeamAgg ℝ) :
+    gammaVal g (k * c) n (k * t.mu) (k ^ 2 * t.sig2)
+        (t.players.map (fun p => { p with mu := k * p.mu, sigma := k * p.sigma })) t.rank
+      = gammaVal g c n t.mu t.sig2 t.players t.rank :=
+  hg k hk c n t.mu t.sig2 t.players t.rank
 
 /-! ### change of unit: aggregates, the per-player update, the inflation, the clamp -/
 
@@ -199,9 +207,10 @@ theorem resolveLimit_scale (k : ℝ) (P : Params ℝ) (o : CallOpts ℝ) :
 
 /-! ### change of unit: Bradley–Terry -/
 
-/-- Bradley–Terry pair term under a change of unit, any gamma of the tagged family, no positivity
-    side condition -/
-theorem btPair_scale (k β : ℝ) (hk : 0 < k) (g : GammaFn ℝ) (n : Nat) (ti tq : TeamAgg ℝ) :
+/-- Bradley–Terry pair term under a change of unit, any scale-invariant gamma callback (all of the
+    tagged family), no positivity side condition -/
+theorem btPair_scale (k β : ℝ) (hk : 0 < k) (g : GammaFn ℝ) (hg : GammaScaleInv g) (n : Nat)
+    (ti tq : TeamAgg ℝ) :
     btPair (k * β) g n (ti.scale k) (tq.scale k)
       = (k * (btPair β g n ti tq).1, (btPair β g n ti tq).2) := by
   have hcs : Real.sqrt (k ^ 2 * ti.sig2 + k ^ 2 * tq.sig2 + 2 * (k * β * (k * β)))
@@ -209,25 +218,25 @@ theorem btPair_scale (k β : ℝ) (hk : 0 < k) (g : GammaFn ℝ) (n : Nat) (ti t
     rw [← sqrt_scale k _ hk]; congr 1; ring
   simp only [btPair, TeamAgg.scale, sc_sqrt, sc_exp, sc_ofNat, Nat.cast_ofNat, Nat.cast_one,
     Nat.cast_zero, hcs, ← mul_sub, mul_div_scale k _ _ hk.ne', sq_mul_div_scale k _ _ hk.ne',
-    gammaVal_scale g k _ hk n ti.mu (k * ti.mu) ti.sig2 ti.rank]
+    gam_scaleInv_agg hg k hk _ n ti]
   refine Prod.ext ?_ ?_
   · simp only []; ring
   · simp only []
     rw [← mul_assoc, mul_comm _ k, mul_assoc k, mul_div_scale k _ _ hk.ne']
 
 theorem omegaDelta_scale_BTF (L : Leaves ℝ) (k : ℝ) (hk : 0 < k) (P : Params ℝ)
-    (ts : List (TeamAgg ℝ)) :
+    (hg : GammaScaleInv P.gamma) (ts : List (TeamAgg ℝ)) :
     omegaDelta .BTF L (scaleParams k P) (ts.map (TeamAgg.scale k))
       = (omegaDelta .BTF L P ts).map (fun od => (k * od.1, od.2)) := by
   simp only [omegaDelta, scaleParams, List.zipIdx_map, List.map_map, Function.comp_def, Prod.map,
-    c16_othersOf_map, List.length_map, id, btPair_scale k _ hk, sumPairs_scale]
+    c16_othersOf_map, List.length_map, id, btPair_scale k _ hk _ hg, sumPairs_scale]
 
 theorem omegaDelta_scale_BTP (L : Leaves ℝ) (k : ℝ) (hk : 0 < k) (P : Params ℝ)
-    (ts : List (TeamAgg ℝ)) :
+    (hg : GammaScaleInv P.gamma) (ts : List (TeamAgg ℝ)) :
     omegaDelta .BTP L (scaleParams k P) (ts.map (TeamAgg.scale k))
       = (omegaDelta .BTP L P ts).map (fun od => (k * od.1, od.2)) := by
   simp only [omegaDelta, scaleParams, List.zipIdx_map, List.map_map, Function.comp_def, Prod.map,
-    c16_neighboursOf_map, List.length_map, id, btPair_scale k _ hk, sumPairs_scale]
+    c16_neighboursOf_map, List.length_map, id, btPair_scale k _ hk _ hg, sumPairs_scale]
 
 /-! ### change of unit: Plackett–Luce -/
 
@@ -247,7 +256,8 @@ theorem plA_scale (k : ℝ) (ts : List (TeamAgg ℝ)) : plA (ts.map (TeamAgg.sca
   simp only [plA, List.map_map, List.filter_map, Function.comp_def, TeamAgg.scale, List.length_map]
   rfl
 
-theorem plOmegaDelta_scale (k : ℝ) (hk : 0 < k) (g : GammaFn ℝ) (ts : List (TeamAgg ℝ)) (c : ℝ)
+theorem plOmegaDelta_scale (k : ℝ) (hk : 0 < k) (g : GammaFn ℝ) (hg : GammaScaleInv g)
+    (ts : List (TeamAgg ℝ)) (c : ℝ)
     (sq : List ℝ) (a : List Nat) (i : Nat) (ti : TeamAgg ℝ) :
     plOmegaDelta g (ts.map (TeamAgg.scale k)) (k * c) sq a i (ti.scale k)
       = (k * (plOmegaDelta g ts c sq a i ti).1, (plOmegaDelta g ts c sq a i ti).2) := by
@@ -258,18 +268,18 @@ theorem plOmegaDelta_scale (k : ℝ) (hk : 0 < k) (g : GammaFn ℝ) (ts : List (
     List.length_map]
   simp only [TeamAgg.scale, mul_div_scale k _ _ hk.ne', sq_mul_div_scale k _ _ hk.ne',
     sq_mul_div_sq_scale k _ _ hk.ne',
-    gammaVal_scale g k _ hk ts.length ti.mu (k * ti.mu) ti.sig2 ti.rank]
+    gam_scaleInv_agg hg k hk _ ts.length ti]
   refine Prod.ext ?_ rfl
   simp only []
   rw [mul_left_comm]
   rfl
 
 theorem omegaDelta_scale_PL (L : Leaves ℝ) (k : ℝ) (hk : 0 < k) (P : Params ℝ)
-    (ts : List (TeamAgg ℝ)) :
+    (hg : GammaScaleInv P.gamma) (ts : List (TeamAgg ℝ)) :
     omegaDelta .PL L (scaleParams k P) (ts.map (TeamAgg.scale k))
       = (omegaDelta .PL L P ts).map (fun od => (k * od.1, od.2)) := by
   simp only [omegaDelta, scaleParams, plC_scale k _ hk, plSumQ_scale k _ hk.ne', plA_scale,
-    List.zipIdx_map, List.map_map, Function.comp_def, Prod.map, id, plOmegaDelta_scale k hk]
+    List.zipIdx_map, List.map_map, Function.comp_def, Prod.map, id, plOmegaDelta_scale k hk _ hg]
 
 /-! ### change of unit: Thurstone–Mosteller with `kappa = 0`
 
@@ -278,8 +288,8 @@ variance factor in `applyTeam` and, divided by `c_iq`, as the draw margin of the
 it carries the unit of the skill scale.  So with one `kappa` these models are unit-free only for
 `kappa = 0`. -/
 
-theorem tmPair_scale_kappa0 (L : Leaves ℝ) (cmul k β : ℝ) (hk : 0 < k) (g : GammaFn ℝ) (n : Nat)
-    (ti tq : TeamAgg ℝ) :
+theorem tmPair_scale_kappa0 (L : Leaves ℝ) (cmul k β : ℝ) (hk : 0 < k) (g : GammaFn ℝ)
+    (hg : GammaScaleInv g) (n : Nat) (ti tq : TeamAgg ℝ) :
     tmPair L cmul (k * β) 0 g n (ti.scale k) (tq.scale k)
       = (k * (tmPair L cmul β 0 g n ti tq).1, (tmPair L cmul β 0 g n ti tq).2) := by
   have hcs : cmul * Real.sqrt (k ^ 2 * ti.sig2 + k ^ 2 * tq.sig2 + 2 * (k * β * (k * β)))
@@ -287,9 +297,9 @@ theorem tmPair_scale_kappa0 (L : Leaves ℝ) (cmul k β : ℝ) (hk : 0 < k) (g :
     rw [mul_left_comm k cmul, ← sqrt_scale k _ hk]; congr 2; ring
   simp only [tmPair, TeamAgg.scale, sc_sqrt, sc_ofNat, Nat.cast_ofNat, hcs, ← mul_sub,
     mul_div_scale k _ _ hk.ne', sq_mul_div_scale k _ _ hk.ne', zero_div,
-    gammaVal_scale g k _ hk n ti.mu (k * ti.mu) ti.sig2 ti.rank]
-  have h2 : ∀ x c : ℝ, gammaVal g c n ti.mu ti.sig2 ti.rank * (k * x) / (k * c)
-      = gammaVal g c n ti.mu ti.sig2 ti.rank * x / c := by
+    gam_scaleInv_agg hg k hk _ n ti]
+  have h2 : ∀ x c : ℝ, gammaVal g c n ti.mu ti.sig2 ti.players ti.rank * (k * x) / (k * c)
+      = gammaVal g c n ti.mu ti.sig2 ti.players ti.rank * x / c := by
     intro x c; rw [mul_left_comm, mul_div_scale k _ _ hk.ne']
   simp only [h2]
   split_ifs
@@ -298,19 +308,19 @@ theorem tmPair_scale_kappa0 (L : Leaves ℝ) (cmul k β : ℝ) (hk : 0 < k) (g :
   · refine Prod.ext ?_ rfl; simp only []; ring
 
 theorem omegaDelta_scale_TM_kappa0 (K : Kind) (L : Leaves ℝ) (k : ℝ) (hk : 0 < k) (P : Params ℝ)
-    (hκ : P.kappa = 0) (ts : List (TeamAgg ℝ)) :
+    (hg : GammaScaleInv P.gamma) (hκ : P.kappa = 0) (ts : List (TeamAgg ℝ)) :
     omegaDelta K L (scaleParams k P) (ts.map (TeamAgg.scale k))
       = (omegaDelta K L P ts).map (fun od => (k * od.1, od.2)) := by
   cases K with
-  | PL => exact omegaDelta_scale_PL L k hk P ts
-  | BTF => exact omegaDelta_scale_BTF L k hk P ts
-  | BTP => exact omegaDelta_scale_BTP L k hk P ts
+  | PL => exact omegaDelta_scale_PL L k hk P hg ts
+  | BTF => exact omegaDelta_scale_BTF L k hk P hg ts
+  | BTP => exact omegaDelta_scale_BTP L k hk P hg ts
   | TMF =>
     simp only [omegaDelta, scaleParams, hκ, List.zipIdx_map, List.map_map, Function.comp_def,
-      Prod.map, c16_othersOf_map, List.length_map, id, tmPair_scale_kappa0 L _ k _ hk, sumPairs_scale]
+      Prod.map, c16_othersOf_map, List.length_map, id, tmPair_scale_kappa0 L _ k _ hk _ hg, sumPairs_scale]
   | TMP =>
     simp only [omegaDelta, scaleParams, hκ, List.zipIdx_map, List.map_map, Function.comp_def,
-      Prod.map, c16_neighboursOf_map, List.length_map, id, tmPair_scale_kappa0 L _ k _ hk,
+      Prod.map, c16_neighboursOf_map, List.length_map, id, tmPair_scale_kappa0 L _ k _ hk _ hg,
       sumPairs_scale]
 
 /-! ### change of unit: `omegaDelta`, `_compute` -/
@@ -320,29 +330,29 @@ def Kind.logistic (K : Kind) : Prop := K = .PL ∨ K = .BTF ∨ K = .BTP
 
 /-- in rescaled units every omega is multiplied by the unit and every delta is unchanged -/
 theorem omegaDelta_scale (K : Kind) (hK : K.logistic) (L : Leaves ℝ) (k : ℝ) (hk : 0 < k)
-    (P : Params ℝ) (ts : List (TeamAgg ℝ)) :
+    (P : Params ℝ) (hg : GammaScaleInv P.gamma) (ts : List (TeamAgg ℝ)) :
     omegaDelta K L (scaleParams k P) (ts.map (TeamAgg.scale k))
       = (omegaDelta K L P ts).map (fun od => (k * od.1, od.2)) := by
   rcases hK with rfl | rfl | rfl
-  · exact omegaDelta_scale_PL L k hk P ts
-  · exact omegaDelta_scale_BTF L k hk P ts
-  · exact omegaDelta_scale_BTP L k hk P ts
+  · exact omegaDelta_scale_PL L k hk P hg ts
+  · exact omegaDelta_scale_BTF L k hk P hg ts
+  · exact omegaDelta_scale_BTP L k hk P hg ts
 
 /-- the same for every model for which the change of unit is sound: the three logistic models, or
     any model when `kappa = 0` -/
 theorem omegaDelta_scale_gen (K : Kind) (L : Leaves ℝ) (k : ℝ) (hk : 0 < k)
-    (P : Params ℝ) (hK : K.logistic ∨ P.kappa = 0) (ts : List (TeamAgg ℝ)) :
+    (P : Params ℝ) (hg : GammaScaleInv P.gamma) (hK : K.logistic ∨ P.kappa = 0) (ts : List (TeamAgg ℝ)) :
     omegaDelta K L (scaleParams k P) (ts.map (TeamAgg.scale k))
       = (omegaDelta K L P ts).map (fun od => (k * od.1, od.2)) := by
   rcases hK with hK | hκ
-  · exact omegaDelta_scale K hK L k hk P ts
-  · exact omegaDelta_scale_TM_kappa0 K L k hk P hκ ts
+  · exact omegaDelta_scale K hK L k hk P hg ts
+  · exact omegaDelta_scale_TM_kappa0 K L k hk P hg hκ ts
 
 theorem compute_scale (K : Kind) (L : Leaves ℝ) (k : ℝ) (hk : 0 < k)
-    (P : Params ℝ) (hK : K.logistic ∨ P.kappa = 0) (teams : List (List (Rating ℝ))) (dense : List Nat) :
+    (P : Params ℝ) (hg : GammaScaleInv P.gamma) (hK : K.logistic ∨ P.kappa = 0) (teams : List (List (Rating ℝ))) (dense : List Nat) :
     compute K L (scaleParams k P) (scaleTeams k teams) dense
       = scaleTeams k (compute K L P teams dense) := by
-  simp only [compute, teamAggs_scale, omegaDelta_scale_gen K L k hk P hK, List.zip_map, List.map_map,
+  simp only [compute, teamAggs_scale, omegaDelta_scale_gen K L k hk P hg hK, List.zip_map, List.map_map,
     Function.comp_def, Prod.map, applyTeam_scale k _ hk.ne']
   simp only [scaleTeams, List.map_map, Function.comp_def]
   rfl
@@ -354,18 +364,18 @@ theorem unwind_scaleTeams {κ : Type} (le : κ → κ → Bool) (tenet : List κ
   unwind_map le tenet xs _
 
 theorem rateCore_scale {ρ : Type} (K : Kind) (L : Leaves ℝ) (k : ℝ) (hk : 0 < k)
-    (P : Params ℝ) (hK : K.logistic ∨ P.kappa = 0) (le : ρ → ρ → Bool) (teams : List (List (Rating ℝ)))
-    (ranks : Option (List ρ)) (o : CallOpts ℝ) :
+    (P : Params ℝ) (hg : GammaScaleInv P.gamma) (hK : K.logistic ∨ P.kappa = 0) (le : ρ → ρ → Bool)
+    (teams : List (List (Rating ℝ))) (ranks : Option (List ρ)) (o : CallOpts ℝ) :
     rateCore K L (scaleParams k P) le (scaleTeams k teams) ranks (scaleOpts k o)
       = scaleTeams k (rateCore K L P le teams ranks o) := by
   cases ranks with
   | none =>
     simp only [rateCore, resolveTau_scale, resolveLimit_scale, inflate_scale _ _ hk,
-      length_scaleTeams, compute_scale K L k hk P hK, clampTeams_scale k hk]
+      length_scaleTeams, compute_scale K L k hk P hg hK, clampTeams_scale k hk]
     split_ifs <;> rfl
   | some r =>
     simp only [rateCore, resolveTau_scale, resolveLimit_scale, inflate_scale _ _ hk,
-      unwind_scaleTeams, compute_scale K L k hk P hK, clampTeams_scale k hk]
+      unwind_scaleTeams, compute_scale K L k hk P hg hK, clampTeams_scale k hk]
     split_ifs <;> rfl
 
 /-! ### change of origin: aggregates, the per-player update, the inflation, the clamp -/
@@ -432,14 +442,35 @@ theorem inflate_lengths (τ : ℝ) (m : Nat) (teams : List (List (Rating ℝ)))
 
 /-! ### change of origin: pair terms, Plackett–Luce, `omegaDelta` -/
 
-theorem btPair_shiftP (d D β : ℝ) (g : GammaFn ℝ) (n : Nat) (ti tq : TeamAgg ℝ) :
-    btPair β g n (ti.shiftP d D) (tq.shiftP d D) = btPair β g n ti tq :=
-  C16_btPair_shift D β g n ti tq
+/-- the gamma call `_compute` makes for team `t` is the same after the shift (players by `d`, team mu
+by `D`) -/
+def gam_ShiftAt (g : GammaFn ℝ) (d D : ℝ) (t : TeamAgg ℝ) : Prop :=
+  ∀ (c : ℝ) (n : Nat),
+    gammaVal g c n (t.mu + D) t.sig2 (t.players.map (shiftPlayer d)) t.rank
+      = gammaVal g c n t.mu t.sig2 t.players t.rank
+
+/-- a tagged member: any `d`, `D` -/
+theorem gam_shiftAt_tagged {g : GammaFn ℝ} (hg : g.Tagged) (d D : ℝ) (t : TeamAgg ℝ) :
+    gam_ShiftAt g d D t :=
+  fun c n => gam_tagged_mu_team hg c n t.mu _ t.sig2 t.players _ t.rank
+
+/-- a shift-invariant callback: `D` = (number of players) · `d` -/
+theorem gam_shiftAt_of_inv {g : GammaFn ℝ} (hg : GammaShiftInv g) (d : ℝ) (t : TeamAgg ℝ) :
+    gam_ShiftAt g d (t.players.length * d) t :=
+  fun c n => hg d c n t.mu t.sig2 t.players t.rank
+
+theorem btPair_shiftP (d D β : ℝ) (g : GammaFn ℝ) (n : Nat) (ti tq : TeamAgg ℝ)
+    (hg : gam_ShiftAt g d D ti) :
+    btPair β g n (ti.shiftP d D) (tq.shiftP d D) = btPair β g n ti tq := by
+  have h : tq.mu + D - (ti.mu + D) = tq.mu - ti.mu := by ring
+  simp only [btPair, TeamAgg.shiftP, h, hg _ n]
+  rfl
 
 theorem tmPair_shiftP (L : Leaves ℝ) (cmul d D β κ : ℝ) (g : GammaFn ℝ) (n : Nat)
-    (ti tq : TeamAgg ℝ) :
-    tmPair L cmul β κ g n (ti.shiftP d D) (tq.shiftP d D) = tmPair L cmul β κ g n ti tq :=
-  C16_tmPair_shift L cmul D β κ g n ti tq
+    (ti tq : TeamAgg ℝ) (hg : gam_ShiftAt g d D ti) :
+    tmPair L cmul β κ g n (ti.shiftP d D) (tq.shiftP d D) = tmPair L cmul β κ g n ti tq := by
+  have h : ti.mu + D - (tq.mu + D) = ti.mu - tq.mu := by ring
+  simp only [tmPair, TeamAgg.shiftP, h, hg _ n]
 
 theorem plC_shift (d D β : ℝ) (ts : List (TeamAgg ℝ)) :
     plC β (ts.map (TeamAgg.shiftP d D)) = plC β ts := by
@@ -461,7 +492,7 @@ theorem plA_shift (d D : ℝ) (ts : List (TeamAgg ℝ)) :
   rfl
 
 theorem plOmegaDelta_shift (d D : ℝ) (g : GammaFn ℝ) (ts : List (TeamAgg ℝ)) (c : ℝ)
-    (sq : List ℝ) (a : List Nat) (i : Nat) (ti : TeamAgg ℝ) :
+    (sq : List ℝ) (a : List Nat) (i : Nat) (ti : TeamAgg ℝ) (hg : gam_ShiftAt g d D ti) :
     plOmegaDelta g (ts.map (TeamAgg.shiftP d D)) c (sq.map (fun s => Real.exp (D / c) * s)) a i
         (ti.shiftP d D)
       = plOmegaDelta g ts c sq a i ti := by
@@ -472,51 +503,82 @@ theorem plOmegaDelta_shift (d D : ℝ) (g : GammaFn ℝ) (ts : List (TeamAgg ℝ
   simp only [plOmegaDelta, hz, List.filter_map, List.map_map, Function.comp_def, Prod.map, id,
     List.length_map]
   simp only [TeamAgg.shiftP, sc_exp, exp_shift, mul_div_mul_left _ _ (Real.exp_ne_zero _),
-    gammaVal_mu g c ts.length ti.mu (ti.mu + D)]
+    hg c ts.length]
   rfl
 
-/-- moving every team mu by the same amount changes no omega and no delta (all five models) -/
+/-- moving every team mu by the same amount changes no omega and no delta (all five models), as long
+as the gamma call of each team is unchanged (`gam_ShiftAt`: any tagged member; a shift-invariant
+callback when `D` is (team size) · `d`) -/
 theorem omegaDelta_shift (K : Kind) (L : Leaves ℝ) (d D : ℝ) (P : Params ℝ)
-    (ts : List (TeamAgg ℝ)) :
+    (ts : List (TeamAgg ℝ)) (hg : ∀ t ∈ ts, gam_ShiftAt P.gamma d D t) :
     omegaDelta K L P (ts.map (TeamAgg.shiftP d D)) = omegaDelta K L P ts := by
   cases K with
   | PL =>
     simp only [omegaDelta, plC_shift, plSumQ_shift, plA_shift, List.zipIdx_map, List.map_map,
-      Function.comp_def, Prod.map, id, plOmegaDelta_shift]
+      Function.comp_def, Prod.map, id]
+    refine List.map_congr_left (fun x hx => ?_)
+    exact plOmegaDelta_shift d D _ ts _ _ _ _ _ (hg _ (List.fst_mem_of_mem_zipIdx hx))
   | BTF =>
     simp only [omegaDelta, List.zipIdx_map, List.map_map, Function.comp_def, Prod.map,
-      c16_othersOf_map, List.length_map, id, btPair_shiftP]
+      c16_othersOf_map, List.length_map, id]
+    refine List.map_congr_left (fun x hx => ?_)
+    simp only [btPair_shiftP d D _ _ _ x.1 _ (hg _ (List.fst_mem_of_mem_zipIdx hx))]
   | BTP =>
     simp only [omegaDelta, List.zipIdx_map, List.map_map, Function.comp_def, Prod.map,
-      c16_neighboursOf_map, List.length_map, id, btPair_shiftP]
+      c16_neighboursOf_map, List.length_map, id]
+    refine List.map_congr_left (fun x hx => ?_)
+    simp only [btPair_shiftP d D _ _ _ x.1 _ (hg _ (List.fst_mem_of_mem_zipIdx hx))]
   | TMF =>
     simp only [omegaDelta, List.zipIdx_map, List.map_map, Function.comp_def, Prod.map,
-      c16_othersOf_map, List.length_map, id, tmPair_shiftP]
+      c16_othersOf_map, List.length_map, id]
+    refine List.map_congr_left (fun x hx => ?_)
+    simp only [tmPair_shiftP L _ d D _ _ _ _ x.1 _ (hg _ (List.fst_mem_of_mem_zipIdx hx))]
   | TMP =>
     simp only [omegaDelta, List.zipIdx_map, List.map_map, Function.comp_def, Prod.map,
-      c16_neighboursOf_map, List.length_map, id, tmPair_shiftP]
+      c16_neighboursOf_map, List.length_map, id]
+    refine List.map_congr_left (fun x hx => ?_)
+    simp only [tmPair_shiftP L _ d D _ _ _ _ x.1 _ (hg _ (List.fst_mem_of_mem_zipIdx hx))]
+
+/-- the statement for the tagged family: any `d`, `D` -/
+theorem omegaDelta_shift_tagged (K : Kind) (L : Leaves ℝ) (d D : ℝ) (P : Params ℝ)
+    (hg : P.gamma.Tagged) (ts : List (TeamAgg ℝ)) :
+    omegaDelta K L P (ts.map (TeamAgg.shiftP d D)) = omegaDelta K L P ts :=
+  omegaDelta_shift K L d D P ts (fun t _ => gam_shiftAt_tagged hg d D t)
+
+/-- the players carried by the aggregates of teams of size `m` -/
+theorem gam_teamAggs_players_length (m : Nat) (teams : List (List (Rating ℝ)))
+    (hm : ∀ t ∈ teams, t.length = m) (ranks : List Nat) :
+    ∀ t ∈ teamAggs teams ranks, t.players.length = m := by
+  intro t ht
+  simp only [teamAggs, List.mem_map] at ht
+  obtain ⟨tr, htr, rfl⟩ := ht
+  exact hm _ (List.of_mem_zip htr).1
 
 theorem compute_shift (K : Kind) (L : Leaves ℝ) (d : ℝ) (m : Nat) (P : Params ℝ)
+    (hg : GammaShiftInv P.gamma)
     (teams : List (List (Rating ℝ))) (hm : ∀ t ∈ teams, t.length = m) (dense : List Nat) :
     compute K L P (shiftTeams d teams) dense = shiftTeams d (compute K L P teams dense) := by
-  simp only [compute, teamAggs_shift d m teams hm, omegaDelta_shift, List.zip_map_left,
+  have hod := omegaDelta_shift K L d (m * d) P (teamAggs teams dense) (fun t ht => by
+    have := gam_shiftAt_of_inv hg d t
+    rwa [gam_teamAggs_players_length m teams hm dense t ht] at this)
+  simp only [compute, teamAggs_shift d m teams hm, hod, List.zip_map_left,
     List.map_map, Function.comp_def, Prod.map, applyTeam_shift, id]
   simp only [shiftTeams, List.map_map, Function.comp_def]
 
 theorem rateCore_shift {ρ : Type} (K : Kind) (L : Leaves ℝ) (d : ℝ) (m : Nat)
-    (P : Params ℝ) (le : ρ → ρ → Bool) (teams : List (List (Rating ℝ)))
+    (P : Params ℝ) (hg : GammaShiftInv P.gamma) (le : ρ → ρ → Bool) (teams : List (List (Rating ℝ)))
     (hm : ∀ t ∈ teams, t.length = m) (ranks : Option (List ρ)) (o : CallOpts ℝ) :
     rateCore K L P le (shiftTeams d teams) ranks o = shiftTeams d (rateCore K L P le teams ranks o) := by
   have hm' := inflate_lengths (resolveTau P o) m teams hm
   cases ranks with
   | none =>
-    simp only [rateCore, inflate_shift, length_shiftTeams, compute_shift K L d m P _ hm',
+    simp only [rateCore, inflate_shift, length_shiftTeams, compute_shift K L d m P hg _ hm',
       clampTeams_shift]
     split_ifs <;> rfl
   | some r =>
     have hm'' : ∀ t ∈ (unwind le r (inflate (resolveTau P o) teams)).1, t.length = m :=
       fun t ht => hm' t (c16_mem_unwind_fst le r _ t ht)
-    simp only [rateCore, inflate_shift, unwind_shiftTeams, compute_shift K L d m P _ hm'',
+    simp only [rateCore, inflate_shift, unwind_shiftTeams, compute_shift K L d m P hg _ hm'',
       clampTeams_shift]
     split_ifs <;> rfl
 
